@@ -228,6 +228,27 @@ def mutants(ctx, pq, all_traces):
             if not isinstance(M, sim._measurement_classes_allowed_with_shots_none):
                 prog = base()[:-1] + [M]
                 expect_reject(ctx, pq, f"shots-none:{sname}:{mname}", f"{mname} with shots=None on {sname}", mk(), prog, all_traces, shots=None)
+    # outcome-dependent (feed-forward) parameters that become invalid on some branch: must raise a Piquasso exception there
+    from piquasso.api.exceptions import PiquassoException
+    ff_cases = [
+        ("PassiveSimulator", lambda: [pq.NumberState([1, 0, 1]).on_modes(0, 1, 2), pq.Beamsplitter(theta=np.pi / 4).on_modes(0, 1), pq.ParticleNumberMeasurement().on_modes(0),
+                                      pq.UniformLoss(transmissivity=lambda x: 1.5 * x[-1]).on_modes(1, 2)], "UniformLoss(transmissivity=1.5*x[-1])", None),
+        ("PassiveSimulator", lambda: [pq.NumberState([1, 0, 1]).on_modes(0, 1, 2), pq.Beamsplitter(theta=np.pi / 4).on_modes(0, 1), pq.ParticleNumberMeasurement().on_modes(0),
+                                      pq.UniformLoss(transmissivity="1.5 * x[-1]").on_modes(1, 2)], "UniformLoss(transmissivity='1.5 * x[-1]')", 50),
+        ("GaussianSimulator", lambda: [pq.Vacuum(), pq.Squeezing(r=0.5).on_modes(0), pq.HomodyneMeasurement().on_modes(0),
+                                       pq.Thermal(mean_photon_numbers=lambda x: [-1.0 - abs(x[0])]).on_modes(1)] if False else
+                                      [pq.Vacuum(), pq.Squeezing(r=0.5).on_modes(0), pq.HomodyneMeasurement().on_modes(0),
+                                       pq.Interferometer(matrix=lambda x: np.ones((1, 2))).on_modes(1)], "Interferometer(matrix -> non-square)", 3),
+    ]
+    sims_ff = simulators(pq)
+    for sname, mkprog, what, shots in ff_cases:
+        ctx.case(("feed-forward", sname, what))
+        status, exc, result, nsteps, traces = run_recorded(pq, sims_ff[sname][0](d=3 if sname == "PassiveSimulator" else 2, config=pq.Config(seed_sequence=1)), mkprog(), shots=shots)
+        all_traces += traces
+        if status == "done":
+            ctx.report(f"C13:accepted-invalid:feed-forward:{sname}:{what.split('(')[0]}", f"{what} on {sname}: the parameter resolves to an invalid value on a branch but a result was returned", {"what": what})
+        elif not isinstance(exc, PiquassoException):
+            ctx.report(f"C13:reject-class:feed-forward:{sname}:{what.split('(')[0]}", f"{what} on {sname}: raised {type(exc).__name__} instead of a Piquasso exception", {"what": what})
     # documented parameter errors (config.validate on)
     cfg = pq.Config(cutoff=4)
     param_cases = [
